@@ -85,10 +85,16 @@ def shapes() -> Dict[str, Dict[str, Tables]]:
     out["late_starter"] = {"B1": basic("B1"), "B2": [("in", [_in("B2", "2021-02-01 10:00:00+00:00", "3", "50")]), ("out", [_out("B2", "2021-09-01 10:00:00+00:00", "1", "80")])]}
     many = [_in("B1", (date(2020, 1, 1) + timedelta(days=7 * i)).isoformat() + " 10:00:00+00:00", "0.1", str(100 + i), uid=f"B1-lot-{i}") for i in range(30)]
     out["many_lots"] = {"B1": [("in", many + [_in("B1", "2020-12-01 10:00:00+00:00", "0.05", "500", "INTEREST")]), ("out", [_out("B1", "2021-02-01 10:00:00+00:00", "2.95", "600")])]}
+    # three years of small weekly purchases liquidated by two sales: far more gain/loss fractions (160) than taxable events (2)
+    weekly = [_in("B1", (date(2018, 1, 3) + timedelta(days=7 * i)).isoformat() + " 10:00:00+00:00", "0.01", str(100 + i), uid=f"B1-w{i}") for i in range(160)]
+    out["hundreds_of_fractions"] = {"B1": [("in", weekly), ("out", [_out("B1", "2021-03-01 10:00:00+00:00", "1", "600", uid="B1-big-sale"),
+                                                                     _out("B1", "2021-04-01 10:00:00+00:00", "0.6", "650", uid="B1-rest")])]}
     out["same_instant"] = {"B1": [
         ("in", [_in("B1", "2020-05-05 10:00:00+00:00", "1", "100", uid="a"), _in("B1", "2020-05-05 10:00:00+00:00", "1", "200", uid="b"),
                 _in("B1", "2020-05-05 10:00:00+00:00", "0.5", "150", "INTEREST", uid="c")]),
-        ("out", [_out("B1", "2020-05-05 10:00:00+00:00", "1.5", "300", uid="d"), _out("B1", "2021-05-05 10:00:00+00:00", "1", "300", uid="e")]),
+        # two disposals at that same instant: the first uses up exactly one lot, the second follows at once
+        ("out", [_out("B1", "2020-05-05 10:00:00+00:00", "1", "300", uid="d"), _out("B1", "2020-05-05 10:00:00+00:00", "0.5", "310", "GIFT", uid="d2"),
+                 _out("B1", "2021-05-05 10:00:00+00:00", "1", "300", uid="e")]),
     ]}
     return out
 
